@@ -57,7 +57,8 @@ FreshState ==
    expect |-> <<>>,   \* after an unwind: what a repetition of the requests must return
    eidx   |-> 1,
    hdef   |-> FALSE,  \* the script has reset the error handlers to the library's defaults (set_handler(nullptr))
-   taint  |-> -1,     \* id of the last stack allocation before a failed request that changed the stack's state (-1: none)
+   clk    |-> 0,      \* logical time: counts requests and markers of the execution
+   taint  |-> {},     \* times of the failed stack requests that changed the stack's state (moved on to the next block)
    snap   |-> {},     \* upstream blocks that were outstanding when the previous API call returned
    over   |-> FALSE,  \* execution ended abnormally
    vm     |-> <<>>,   \* address ranges reserved from the operating system (index r+1): [pg, live, com = committed pages]
@@ -204,10 +205,8 @@ OnAlloc(e) ==
                !.slog = IF ok /\ o.fam = "stack" THEN Append(@, [id |-> e.id, n |-> e.n, sz |-> e.sz, al |-> e.al, op |-> e.op, t |-> e.t, b |-> e.b, off |-> e.off]) ELSE @,
                \* a request that failed AFTER the stack had moved on to its next (cached) block is part of the history
                \* although it is not in slog: replay expectations across it would compare different sequences
-               !.taint = IF o.fam = "stack" /\ ~ok /\ e.cap1 # e.cap0
-                         THEN LET at == IF st.slog = <<>> THEN 0 ELSE st.slog[Len(st.slog)].id
-                              IN IF @ >= 0 /\ @ < at THEN @ ELSE at
-                         ELSE @,
+               !.clk = @ + 1,
+               !.taint = IF o.fam = "stack" /\ ~ok /\ e.cap1 # e.cap0 THEN @ \cup {st.clk + 1} ELSE @,
                !.expect = IF ok /\ sameReq THEN @ ELSE <<>>,
                !.eidx = IF ok /\ sameReq THEN @ + 1 ELSE 1]
   IN Result(nst,
@@ -319,9 +318,9 @@ OnFree(e) ==
 (* memory_stack: markers *)
 OnMark(e) ==
   LET o == Obj(e.o)
-  IN Result([st EXCEPT !.marks = IF e.m + 1 <= Len(@) THEN [@ EXCEPT ![e.m + 1] = [wm |-> e.wm, cap |-> e.cap, blk |-> o.curblk]]
-                                  ELSE Append(@, [wm |-> e.wm, cap |-> e.cap, blk |-> o.curblk]),
-                       !.pend = <<>>, !.inj = 0],
+  IN Result([st EXCEPT !.marks = IF e.m + 1 <= Len(@) THEN [@ EXCEPT ![e.m + 1] = [wm |-> e.wm, cap |-> e.cap, blk |-> o.curblk, clk |-> st.clk + 1]]
+                                  ELSE Append(@, [wm |-> e.wm, cap |-> e.cap, blk |-> o.curblk, clk |-> st.clk + 1]),
+                       !.clk = @ + 1, !.pend = <<>>, !.inj = 0],
             NoStrayReports("mark") \cup NoLeakReport("mark"))
 
 OnUnwind(e) ==
@@ -330,9 +329,10 @@ OnUnwind(e) ==
       dying == {a \in st.live : a.o = e.o /\ a.id > e.wm}
       keep == SelectSeq(st.slog, LAMBDA r : r.id <= e.wm)
       gone == SelectSeq(st.slog, LAMBDA r : r.id > e.wm)
-      clean == st.taint < 0 \/ e.wm > st.taint
+      \* no failed, state-changing request since the marker was taken
+      clean == \A t \in st.taint : t < mk.clk
       nst == [st EXCEPT !.live = @ \ dying, !.slog = keep, !.expect = IF clean THEN gone ELSE <<>>, !.eidx = 1,
-                        !.taint = IF @ >= 0 /\ e.wm < @ THEN -1 ELSE @,
+                        !.taint = {t \in @ : t < mk.clk},      \* what happened after the marker is undone
                         !.objs[e.o + 1].curblk = mk.blk, !.pend = <<>>, !.inj = 0]
   IN Result(nst,
        Chk(e.r = "ok", "C06", "UnwindNeverThrows", <<e.r>>)
